@@ -193,7 +193,7 @@ class Loops:
         for name, props, f in self.collect_invs(ex, key, env, i, extra):
             import re
             who = re.sub(r'\{(=[^}]*|other)\}$', '', key[0].split(':')[-1])
-            ex.prove('%s#loop%s:%s[%s]' % (who, key[1], name, phase), props, f)
+            ex.prove('%s#loop%s:%s[%s]' % (who, key[1], name, phase), props, f, soft=True)
 
     def assume_invs(self, ex, key, env, i, extra=None):
         for name, props, f in self.collect_invs(ex, key, env, i, extra):
@@ -238,6 +238,19 @@ class Loops:
         pre_existing = [n for n in mod_names if env.has(n)]
         def havoc():
             # containers the loop itself fills are not framed by the loop havoc
+            if not has_effects(body_nodes):
+                # a pure body: only the containers under construction change from step to step
+                h = ex.heap
+                for r in own_lists:
+                    h.set('LLEN', z3.Store(h.arr('LLEN'), r, ex.fresh_int('len')))
+                    h.set('LELT', z3.Store(h.arr('LELT'), r, z3.Const(ex.fresh_name('elts'), z3.ArraySort(I, Val))))
+                for r in own_dicts:
+                    h.set('DLEN', z3.Store(h.arr('DLEN'), r, ex.fresh_int('len')))
+                    h.set('DHAS', z3.Store(h.arr('DHAS'), r, z3.Const(ex.fresh_name('dhas'), z3.ArraySort(Val, z3.BoolSort()))))
+                    h.set('DVAL', z3.Store(h.arr('DVAL'), r, z3.Const(ex.fresh_name('dval'), z3.ArraySort(Val, Val))))
+                    h.set('DKEY', z3.Store(h.arr('DKEY'), r, z3.Const(ex.fresh_name('dkey'), z3.ArraySort(I, Val))))
+                self.havoc_for_body(ex, env, body_nodes, pre_existing)
+                return
             for r in own_lists:
                 ex.unprotect(r)
             for r in own_dicts:
@@ -276,6 +289,9 @@ class Loops:
             ex.assume(i >= 0)
             self.assume_invs(ex, key, env, i, extra_inv)
             ex.assume(z3.Not(self.cond(ex, desc, i)))
+            if not has_effects(body_nodes):
+                # nothing the body does can change the iterated object: the loop ran exactly while cond held
+                ex.assume(z3.Or(i == 0, self.cond(ex, desc, i - 1)))
             ex.event('loop_exit', key, i)
             if on_exit:
                 on_exit(i)
@@ -371,13 +387,31 @@ class Loops:
         filtered = bool(gen.ifs)
         ex.comp_results = getattr(ex, 'comp_results', [])
 
+        pure = not has_effects([node.elt] + list(gen.ifs)) and not filtered
+        J = z3.Int('K_view')
+        body_at_J = None
+        if pure and desc.kind in ('seq', 'dictkeys', 'dictvalues', 'dictitems', 'reversed', 'range', 'enumerate', 'zip'):
+            try:
+                jenv = Env(env)
+                saved_events = list(ex.events)
+                ex.assign(gen.target, self.elem(ex, desc, J), jenv)
+                body_at_J = ex.to_val(ex.eval(node.elt, jenv))
+                ex.events = saved_events
+                ex.comp_body_at = getattr(ex, 'comp_body_at', {})
+                ex.comp_body_at[L.simp(res).get_id()] = (res, J, body_at_J, desc)
+            except Unsupported:
+                body_at_J = None
+
         def extra(i):
             n = ex.heap.llen(res)
             from .families import CAP
             cap = ('index-within-cap<%s>' % desc.kind, ['C03'], i <= CAP)
             if filtered:
                 return [('comp-len', ['C03', 'C07'], z3.And(n >= 0, n <= i)), cap]
-            return [('comp-len', ['C03', 'C07'], n == i), cap]
+            out = [('comp-len', ['C03', 'C07'], n == i), cap]
+            if body_at_J is not None:
+                out.append(('comp-elements', ['C07', 'C14'], z3.Implies(z3.And(J >= 0, J < i), ex.heap.lelt(res, J) == body_at_J)))
+            return out
 
         def bind(v, i):
             ex.assign(gen.target, v, cenv)
